@@ -95,7 +95,7 @@ func (p *c05) Rule() string {
 		"multi (exhaustive): the same component file included 1-3 times in a row with every combination of {omitted, static, {{ }}, bound} for pa x front-matter x includer variable x :required; " +
 		"propnames: 22 prop names that coincide with words the engine uses elsewhere (required, require, content, layout, slot, name, key, is, ref, ...) x {static, {{ }}, bound, shorthand static, shorthand bound} x {listed in the component's :required or not} x {includer has a variable of that name or not} x {page level, inside v-for} x {no condition, v-if, v-else on the include tag itself}: the prop arrives, satisfies :required, shadows the includer's variable inside and is gone after; " +
 		"afterslot: a component with props and front-matter read before and after its <slot>, the includer supplying content that binds variables itself (component with props, two components, shorthand, loop, loop with include, scoped slot template, the same component nested) x {include, shorthand} x entry: after the slot the component has exactly its own bindings, an include after the slot passes its :required, nothing reaches the includer; " +
-		"selfrec: a tree component that includes itself through its own shorthand tag / through <template include>, 3 levels deep, Template and Vue entry; " +
+		"selfrec: a tree component that includes itself through its own shorthand tag / through <template include>, 3 levels deep, Template and Vue entry; shadow forms: a map-valued prop / front-matter key named like a map variable of the includer that has more keys (include, shorthand, inside v-for): a key only the includer's map has is not readable in the component through a dotted or bracketed path, a filter head, a bound attribute, a loop collection, a condition, or one include further down; " +
 		"names: WithComponents() mapping table for nested directories, shorthand at page level and inside a component; " +
 		"tree (seeded random, 40 000 quick / 320 000 thorough): include trees of depth <= 3 and fan-out <= 3 over the name universe {pa,pb,pc,pd}, random prop forms, front-matter subsets, :required subsets in 5 spellings (csv, spaces, :require, split over :required+:require, repeated :require), component files reused by several includes, includes inside v-for, shorthand at any level, typed page data; " +
 		"non-trivial = a case whose render reached at least one component instance or was decided by the :required predicate; distinct by the full text of the files and data"
